@@ -8,9 +8,9 @@ if [[ "$p" == -R:* ]]; then
   c="${p#-R:}"
   git diff "$c^" "$c" | git apply -R || { echo "cannot reverse-apply $c"; exit 2; }
 else
-  git apply "$p" || git apply -3 "$p" || { echo "cannot apply $p"; git checkout -- .; exit 2; }
+  git apply "$p" 2>/dev/null || git apply -C1 "$p" 2>/dev/null || { echo "cannot apply $p"; git reset -q --hard; exit 2; }
 fi
 cd /verif && ./check "$id" "$tier" ${4:+--seed $4}; rc=$?
-git -C /repo checkout -- . ; git -C /repo reset -q
+git -C /repo reset -q --hard
 echo "exit=$rc"
 exit $rc
